@@ -47,9 +47,9 @@ P = {
  "C12": ("Identifier from config denotes the 0x0620 values; print/parse round trips proved symbolically per digit field for the full ranges; error closure of the parser.",
          "Name-only form is ambiguous in the text format for names that look like numeric ids (known finding).",
          "Coq theorems (digit-field arithmetic) + exhaustive per-field sweeps on /repo"),
- "C13": ("Token-level importer model: payload = image of the data lines, no loss, tags from instruction state, rejections, filter expression equivalence.",
-         "partial: text grammar restricted to ASCII.",
-         "Coq theorems + grammar-generated BF2 correspondence"),
+ "C13": ('Importer model at token level AND text level: payload = image of the data lines, no loss, tags from instruction state, rejections, filter expression equivalence; BF2 text grammar with whole-file round trip and one theorem from text to components.',
+         'partial only for inputs outside what an image rendered to lines can produce (overlapping lines with one start address, unterminated last filter group), each with a _refuted witness.',
+         'Coq theorems + grammar-generated BF2 correspondence (texts rendered inside Coq)'),
  "C14": ("Every model entry point returns Ok or a format/Value error and never runs out of fuel; call-graph pass shows parsers do not reach the register_* writers of module globals.",
          "partial: CPython's own termination and the global-state frame are observed, not proved.",
          "Coq theorems (error closure, fuel) + mutation fuzzing under an alarm"),
@@ -59,15 +59,15 @@ P = {
  "C16": ("All 14 tables entry by entry against GF(2^8) definitions; feeder split independence; adapter = zero-padded CBC; cipher = FIPS-197 specification; inverse.",
          "Tables by translator; cipher code by hand model + correspondence incl. NIST vectors.",
          "Coq theorems (exhaustive table sweeps, inductions) + correspondence"),
- "C17": ("Every Jacobian formula function (translated from the source) represents the affine chord-and-tangent law in all branches; NAF; scalar multiplication; curve parameters; point validation; ECDH symmetry.",
-         "partial: group laws are a hypothesis for the shipped curves (proved by enumeration on small curves); OpenSSL agreement is external.",
-         "Coq theorems over the translated formulas (ring on congruences) + enumeration on small curves"),
+ "C17": ('Every branch of the translated Jacobian formulas, NAF, multiplication drivers, mul_add, validation, ECDH and the affine Point class are theorems; the chord-and-tangent group law itself is proved for every prime field (associativity incl. all degenerate cases) and instantiated for shipped curves by a closed n*G computation; for P-256 no hypothesis is left (primes certified in C19).',
+         'Group-law certificates computed offline are re-checked by ring on every build; for shipped curves other than SECP112r1/r2, SECP128r1 and NIST256p the n*G computation inside the cone is omitted for cost (a BigZ variant for all 17 exists outside the cone, relying on Uint63 primitives). OpenSSL agreement is an external oracle.',
+         'Coq theorems about the translated source + offline certificates checked by ring + correspondence + exhaustive small-group search'),
  "C18": ("verify(sign) on the model under the group-law hypothesis; range rejection; digest truncation; signature codec round trips; RFC 6979 candidate loop against a spec written from the RFC.",
          "partial: hash-dependent tamper detection and OpenSSL agreement are not theorems.",
          "Coq theorems + correspondence + bit-flip sweeps on /repo"),
- "C19": ("DER primitive round trips and exactness for all naturals; truncation/extension rejection; key codecs; 27-byte header.",
-         "partial: PEM/base64, compressed points and OpenSSL byte-compatibility are search/external only.",
-         "Coq theorems + truncation/mutation sweeps"),
+ "C19": ('DER primitives round trip and exactness, truncation/extension rejection, key codecs on the 17 generated curves, 27-byte header, error closure; numbertheory (jacobi, square roots, all branches) in the model with square-root theorems for p = 3 mod 4 and 5 mod 8 and soundness of every branch; Pocklington checker proved sound, certificates for all 17 field primes and orders.',
+         'partial: completeness of the Jacobi symbol needs quadratic reciprocity (kept as an explicit hypothesis, closed by sweep for primes < 300); base64 opaque; OpenSSL byte compatibility is an external oracle; the big certificates (Properties/C19Big.v) are built on every run but not re-checked by coqchk.',
+         'Coq theorems + proved-sound certificate checker + correspondence + structured mutation search'),
  "C20": ("Lock mutual exclusion as an inductive invariant for an unbounded number of threads over instruction lists translated from _rwlock.py; deadlock freedom for 2R+2W by verified exploration; schedule independence of lazy table/rescale from a store-site pass.",
          "partial: CPython's atomicity of a single attribute store is a runtime fact.",
          "Coq inductive invariant + verified state exploration + controlled-scheduler replay on the real lock"),
